@@ -250,6 +250,19 @@ pub fn run(args: &[Val]) -> Val {
                             res(r, unit)
                         }
                     }
+                    "refused_features_iotlb" => {
+                        // the kernel refuses the negotiation; then one IOTLB message
+                        shim::kern_fail_nr(Some(0x25));
+                        let r = b.set_backend_features(g(0));
+                        shim::kern_fail_nr(None);
+                        let m = VhostIotlbMsg { iova: g(1), size: g(2), userspace_addr: g(3), perm: access(g(4)), msg_type: iotlb_type(g(5)) };
+                        let r2 = b.send_iotlb_msg(&m);
+                        if r.is_err() && r2.is_ok() {
+                            Val::L(vec![Val::s("refused"), n(b.get_backend_features_acked())])
+                        } else {
+                            Val::s("harness-unexpected")
+                        }
+                    }
                     "get_backend_features" => res(b.get_backend_features(), n),
                     "set_backend_features" => {
                         let r = b.set_backend_features(g(0));
